@@ -44,6 +44,7 @@ use vh_engine::{Known, Verdict};
 
 pub const K_HANG: &str = "C12:multi:get-never-returns:lower-layer-hit-of-tracked-key";
 pub const K_STALE_LOWER: &str = "C12:multi:get-serves-stale-value:older-value-left-in-slower-layer";
+pub const K_STALE_LOWER_LAYER_API: &str = "C12:multi:get-serves-stale-value:put_to_layer-leaves-older-value-in-slower-layer";
 pub const K_STALE_UPPER: &str = "C12:multi:get-serves-stale-value:put_to_layer-leaves-older-value-in-faster-layer";
 
 /// Set once a real execution has hung twice on the predicted self-deadlock in
@@ -152,6 +153,9 @@ struct Latest {
     serial: u64,
     bytes: Vec<u8>,
     layer: usize,
+    /// written through `put_to_layer` (which addresses one layer and touches no other) rather than
+    /// through put / put_with_ttl / put_with_validation
+    via_layer_api: bool,
 }
 
 #[derive(Debug, Clone, Copy, PartialEq)]
@@ -379,7 +383,7 @@ impl<'a> Interp<'a> {
         if s.history.len() > 40 {
             s.history.remove(0);
         }
-        s.latest = Some(Latest { serial, bytes: bytes.clone(), layer });
+        s.latest = Some(Latest { serial, bytes: bytes.clone(), layer, via_layer_api: !tracks });
         // Whether a write invalidates the older copies in the other layers is the
         // implementation's choice: they are either still there (and must then not be
         // served: L1) or gone, so nothing may be demanded from them any more.
@@ -513,6 +517,8 @@ impl<'a> Interp<'a> {
                     if slot.serial != lt.serial {
                         let (k, why) = if s_min < lt.layer {
                             (K_STALE_UPPER, format!("the latest put went to slower layer {} and left the older value in faster layer {s_min}", lt.layer))
+                        } else if lt.via_layer_api {
+                            (K_STALE_LOWER_LAYER_API, format!("the latest put was put_to_layer(.., {}) and the older value stayed in slower layer {s_min}", lt.layer))
                         } else {
                             (K_STALE_LOWER, format!("the latest put went to layer {} and the older value stayed in slower layer {s_min}", lt.layer))
                         };
